@@ -13,7 +13,7 @@ def run(ck):
     from vf import core
     from vf.props import c01
 
-    specs = c01.program_specs(ck, 24 if ck.tier == "quick" else 300, prop="C06", full=False)
+    specs = c01.C06_PINNED + c01.program_specs(ck, 24 if ck.tier == "quick" else 300, prop="C06", full=False)
     n = min(core.NPROC, len(specs))
     for r in core.pmap("vf.props.c01:work", [{"programs": specs[i::n]} for i in range(n)], timeout=3400):
         if r is None or "harness_error" in r or "mt_exception" in r:
@@ -21,6 +21,7 @@ def run(ck):
         else:
             ck.merge(r["C06"])
     ck.need("stored_rows_scanned", 1000)
+    ck.need("pinned_shape_programs", 1)
     ck.need("stored_typeddict_nodes", 100)
     ck.need("stub_typeddict_classes", 50)
     ck.need("td_nodes_seen", 2000)
